@@ -1010,7 +1010,13 @@ namespace bluetoe {
 
         // if the ending handle points not on an existing attribute, the search will end at the next, lower handle
         if ( ending_index != details::invalid_attribute_index && handle_mapping::handle_by_index( ending_index ) != ending_handle )
+        {
+            // all attributes are behind the ending handle
+            if ( ending_index == 0 )
+                return error_response( *input, details::att_error_codes::attribute_not_found, starting_handle, output, out_size );
+
             --ending_index;
+        }
 
         std::uint8_t*        write_ptr = &output[ 0 ];
         std::uint8_t* const  write_end = write_ptr + out_size;
